@@ -183,6 +183,17 @@ def run(ctx):
         if mode in ('measurements', 'mixed'): req['prune_measurements'] = pick(['second'], 1)
         if mode in ('rename', 'mixed'):
             req['rename_modifiers'] = {n: 'rn_' + n for n in pick([x for x in names_nopoi if x not in req['prune_modifiers']] + ['mu'], 2)}
+            # renamings onto names that exist already: a swap, a cycle or the identity among the modifier names (the mapping is applied
+            # simultaneously: every item and every parameter configuration moves to its image, none is lost)
+            cand = [x for x in names_nopoi if x not in req['prune_modifiers']]
+            r_ = rng.random()
+            if r_ < 0.35 and len(cand) >= 2:
+                cyc = rng.sample(cand, min(len(cand), rng.choice([2, 2, 3])))
+                req['rename_modifiers'] = {a: b for a, b in zip(cyc, cyc[1:] + cyc[:1])}
+                ctx.tally('rename_kind', f'cycle-{len(cyc)}')
+            elif r_ < 0.45 and cand:
+                a = rng.choice(cand); req['rename_modifiers'] = {a: a}
+                ctx.tally('rename_kind', 'identity')
             req['rename_samples'] = {n: 'rn_' + n for n in pick(smp, 1)}
             req['rename_channels'] = {n: 'rn_' + n for n in pick(chn, 1)}
             req['rename_measurements'] = {n: 'rn_' + n for n in pick(['meas'], 1)}
